@@ -1,6 +1,7 @@
 package lhsim
 
 import (
+	"sync"
 	"runtime"
 	"strings"
 	"context"
@@ -206,6 +207,7 @@ type Node struct {
 	syncPre       *preState
 	wakeAt        time.Duration // a timed wait inside the library ends by then (committee retry)
 	wakeSeq       uint64
+	freeChoices      int // worker choices the tape still makes after cancellation (C16)
 	workerNotedEpoch int
 	mainParked    *Gate          // the node's main loop is parked at a scheduling point (H4)
 	pendingSyncs  []*pendingSync // UpdateState calls blocked on a parked main loop
@@ -320,6 +322,8 @@ type World struct {
 	yieldN   int
 	yields   []*yieldRec
 	ys       yieldState
+	evMu     sync.Mutex
+	evBuf    []string
 	kmHold   *kmHold
 	avoidHash []byte // adversary: prefer certificates for another block than this one (the honest lock)
 	stimAny  bool  // a clock advance is in progress (real timers of any node may fire)
@@ -329,8 +333,13 @@ type World struct {
 func (w *World) ev(format string, args ...interface{}) {
 	w.seq++
 	s := fmt.Sprintf(format, args...)
-	w.hasher.Write([]byte(s))
-	w.hasher.Write([]byte{'\n'})
+	// The event-log hash is taken over windows: everything logged between two points at which the harness resumes
+	// (return of a quiescence wait or of a clock sleep) is sorted before it is hashed. Inside one window two
+	// goroutines of the library may both be running (the main loop cancels a context and goes on, the worker woken by
+	// that cancellation goes on too): the order of their log lines is the Go scheduler's, not the tape's.
+	w.evMu.Lock()
+	w.evBuf = append(w.evBuf, s)
+	w.evMu.Unlock()
 	if w.tracing {
 		w.trace = append(w.trace, fmt.Sprintf("%6d t=%-10v %s", w.seq, w.now, s))
 	}
@@ -510,6 +519,7 @@ func (w *World) startNode(n *Node) {
 	}
 	n.inboxUnknown = false
 	n.inbox, n.curMsg, n.wm, n.maxSync, n.updates, n.shuttingDown, n.dueTrigger = nil, nil, hv{}, -1, nil, false, nil
+	n.freeChoices = 0
 	n.ctx, n.cancel = context.WithCancel(context.Background())
 	n.lh = leanhelix.NewLeanHelix(cfg, n.onCommit, n.onNewRound)
 	n.mainParked, n.pendingSyncs = nil, nil
@@ -546,8 +556,12 @@ func (w *World) stopNode(n *Node) {
 // before the next is released (two goroutines released in the same breath would run in an order nobody controls).
 func (w *World) releaseAllGates(n *Node) {
 	for _, g := range append([]*Gate(nil), n.gates...) {
+		v := GateFail
+		if g.kind == "commit" && g.ignoresCtx && w.ch.Pick("late-commit-succeeds", 2) == 1 {
+			v = GatePass // the consumer finished persisting the block although the node was being shut down
+		}
 		select {
-		case g.release <- GateFail:
+		case g.release <- v:
 			simWait()
 		default:
 		}
@@ -771,6 +785,7 @@ func fill(res *RunResult, w *World, ch *Chooser) {
 	w.stats.SimTime = w.now
 	w.stats.Steps = w.step
 	res.Violation = w.viol
+	w.flushEvents()
 	res.LogHash = hex.EncodeToString(w.hasher.Sum(nil)[:8])
 	res.Tape = ch.Rec
 	res.Trace = w.trace
@@ -802,7 +817,7 @@ func (w *World) drainNode(n *Node) {
 	for i := 0; i < 100000; i++ {
 		simWait()
 		moved := false
-		if n.ctrl != nil && n.ctrl.shutdownStep() {
+		if n.ctrl != nil && w.shutdownWorkerStep(n) {
 			moved = true
 		}
 		if len(n.gates) > 0 {
@@ -941,4 +956,23 @@ func compactStack() string {
 		}
 	}
 	return strings.Join(out, " < ")
+}
+
+// flushEvents closes the current event window: its lines go into the hash in sorted order.
+func (w *World) flushEvents() {
+	w.evMu.Lock()
+	buf := w.evBuf
+	w.evBuf = nil
+	w.evMu.Unlock()
+	if len(buf) == 0 {
+		return
+	}
+	sort.Strings(buf)
+	if os.Getenv("SIM_DEBUG_WIN") != "" {
+		fmt.Fprintf(os.Stderr, "WIN %d %q\n", len(buf), buf[0])
+	}
+	for _, s := range buf {
+		w.hasher.Write([]byte(s))
+		w.hasher.Write([]byte{'\n'})
+	}
 }
